@@ -26,6 +26,7 @@ const (
 	KFS                     // file-system call
 	KYield                  // explicit yield (harness only)
 	KTryLock                // non-blocking acquire attempt
+	KChan                   // channel operation (send, receive, close, non-rewritten select)
 )
 
 func (k Kind) String() string {
@@ -42,6 +43,8 @@ func (k Kind) String() string {
 		return "yield"
 	case KTryLock:
 		return "trylock"
+	case KChan:
+		return "chan"
 	}
 	return "?"
 }
@@ -93,6 +96,12 @@ func Point(op Op) {
 		p.h.Point(op)
 	}
 }
+
+// ChanPoint is inserted by the build overlay in front of every channel
+// statement of the code under test (plain send / receive / close, and selects
+// that are not rewritten to SelectRecv), so that the step between, say,
+// registering for a notification and waiting for it can be interleaved.
+func ChanPoint(what string) { Point(Op{Kind: KChan, Name: what}) }
 
 // mapDesc selects descending key order for SortedKeys; the harness flips it
 // to exercise the other legitimate iteration order of Go maps.
